@@ -21,7 +21,8 @@ from ..world import run_flavor, guarded, exc_name, pool_counts, is_async, run_th
 
 ID = "C16"
 LEVEL = "exploration"
-RULE = ("O1: 13 connection types x 3 request shapes (two of them against interim 1xx responses and 23-byte reads) x {first use, "
+RULE = ("O1: 13 connection types x 3 request shapes (two of them against interim 1xx responses and 23-byte reads; on HTTP/2 also a 200 kB "
+        "upload, whose flow-control waits are reads in the middle of sending) x {first use, "
         "reuse} x 3 flavours x timeout configurations "
         "(all distinct, single key only, explicit None, absent); every recorded op is one oracle evaluation. "
         "O2: holder/waiter histories on max_connections=1 with release time S and pool timeouts P over orderings "
@@ -58,10 +59,10 @@ def run_o1(case):
 
     async def main():
         for cfg_name, cfg in CONFIGS.items():
-            for shape in ("get", "post3", "stream-partial"):
+            for shape in ("get", "post3", "stream-partial") + (("post-big",) if TYPES[ctype].get("http2") else ()):
                 # interim 1xx responses and 23-byte reads: many reads are needed for every head and body, each of which
                 # has to carry the read timeout
-                hard = shape != "get"
+                hard = shape not in ("get", "post-big")
                 sc = Sc(ctype, flavor, resp_delay=0.0, timeouts=cfg, interim=hard)
                 net = sc.net
                 if hard:
